@@ -1,3 +1,5 @@
+// Injected as a child module of decoding/ringbuffer.rs: sees RingBuffer's private fields and the private
+// copy_bytes_overshooting.  C04 inductive-step harnesses: arbitrary valid pre-state, one operation, model comparison.
 use super::*;
 use crate::verif_nd as nd;
 use crate::verif_nd::{harness, nd_cover};
@@ -11,3 +13,349 @@ pub(crate) fn fixed_first_alloc(rb: &mut RingBuffer, _amount: usize) {
     rb.buf = NonNull::new(p).unwrap();
     rb.cap = cap;
 }
+
+/// Arbitrary valid state of capacity CAP (= RES rounded up to a power of two, plus the sentinel):
+/// allocated by the real `reserve`, EVERY byte of the allocation symbolic (live data and poison in the free
+/// region alike), head and tail anywhere inside the documented invariant (both < cap).
+pub(crate) fn mk<const RES: usize, const CAP: usize>() -> (RingBuffer, [u8; CAP], usize, usize, usize) {
+    let mut rb = RingBuffer::new();
+    rb.reserve(RES);
+    assert!(rb.cap == CAP);
+    let init: [u8; CAP] = nd::any();
+    unsafe { core::ptr::copy_nonoverlapping(init.as_ptr(), rb.buf.as_ptr(), CAP); }
+    let head: usize = nd::any();
+    let tail: usize = nd::any();
+    nd::assume(head < CAP && tail < CAP);
+    rb.head = head;
+    rb.tail = tail;
+    let len = if tail >= head { tail - head } else { CAP - head + tail };
+    (rb, init, head, tail, len)
+}
+
+fn inv<const CAP: usize>(rb: &RingBuffer) {
+    assert!(rb.cap == CAP && rb.head < CAP && rb.tail < CAP, "position invariant broken");
+}
+
+#[inline(always)]
+fn byte_at(rb: &RingBuffer, i: usize) -> u8 {
+    unsafe { *rb.buf.as_ptr().add((rb.head + i) % rb.cap) }
+}
+
+// ---------------------------------------------------------------- extend_from_within_unchecked
+// REGION splits the pre-state space for parallel solving: 0 = everything, 1 = head < tail, 2 = head >= tail and the
+// source starts behind the wrap point, 3 = head >= tail and the source starts before the wrap point.
+fn step_efw<const RES: usize, const CAP: usize, const REGION: u8>() {
+    let (mut rb, init, head, tail, len) = mk::<RES, CAP>();
+    assert!(rb.len() == len);
+    assert!(rb.free() == CAP - 1 - len);
+    let start: usize = nd::any();
+    let n: usize = nd::any();
+    nd::assume(start <= len && n <= len - start); // documented precondition 1
+    nd::assume(n <= CAP - 1 - len); // documented precondition 2 (space reserved)
+    match REGION {
+        1 => nd::assume(head < tail),
+        2 => nd::assume(head >= tail && head + start > CAP),
+        3 => nd::assume(head >= tail && head + start <= CAP),
+        _ => {}
+    }
+    unsafe { rb.extend_from_within_unchecked(start, n) };
+    inv::<CAP>(&rb);
+    assert!(rb.head == head);
+    assert!(rb.tail == (tail + n) % CAP);
+    assert!(rb.len() == len + n);
+    nd_cover!((REGION > 1) || (head < tail && n > CAP - tail), "case 1 with wrapped destination");
+    nd_cover!((REGION == 1 || REGION == 3) || (head > tail && head + start > CAP && n > 0), "case 2 source behind the wrap");
+    nd_cover!((REGION == 1 || REGION == 2) || (head > tail && head + start <= CAP && n > CAP - head - start), "case 3 source across the wrap");
+    nd_cover!(CAP < 33 || (CAP < 65 && REGION == 2) || n >= 16, "copy of a whole 16-byte chunk or more");
+    nd_cover!(CAP < 33 || (n > 0 && n < 16 && len >= 16), "short copy through the wide single-chunk path");
+    nd_cover!(n == 0, "empty copy");
+    let i: usize = nd::any();
+    nd::assume(i < len + n);
+    let src_i = if i < len { i } else { start + (i - len) };
+    let want = init[(head + src_i) % CAP];
+    assert!(byte_at(&rb, i) == want, "queue content differs from the model after copy-from-within");
+}
+harness! { fn rb_efw_cap9() { step_efw::<8, 9, 0>(); } }
+harness! { fn rb_efw_cap17() { step_efw::<16, 17, 0>(); } }
+harness! { fn rb_efw_cap33_r1() { step_efw::<32, 33, 1>(); } }
+harness! { fn rb_efw_cap33_r2() { step_efw::<32, 33, 2>(); } }
+harness! { fn rb_efw_cap33_r3() { step_efw::<32, 33, 3>(); } }
+harness! { fn rb_efw_cap65_r1() { step_efw::<64, 65, 1>(); } }
+harness! { fn rb_efw_cap65_r2() { step_efw::<64, 65, 2>(); } }
+harness! { fn rb_efw_cap65_r3() { step_efw::<64, 65, 3>(); } }
+
+// ---------------------------------------------------------------- call-site contract of copy_bytes_overshooting (S12)
+/// S12 stub body.  GHOST[0..4] = (buf address, cap, head, tail) of the ring before the operation.
+/// Contract of copy_bytes_overshooting as the real routine implements it (shown by copy_overshooting_contract_*):
+/// with m = min(src.1, dst.1) and n = copy_at_least <= m it reads only src[0..m), writes only dst[0..m),
+/// and afterwards dst[0..n) == src[0..n); dst[n..m) is unspecified.
+pub(crate) unsafe fn copy_contract_stub(src: (*const u8, usize), dst: (*mut u8, usize), n: usize) {
+    let buf = nd::ghost(0) as usize;
+    let cap = nd::ghost(1) as usize;
+    let head = nd::ghost(2) as usize;
+    let tail = nd::ghost(3) as usize;
+    let so = (src.0 as usize).wrapping_sub(buf);
+    let dof = (dst.0 as usize).wrapping_sub(buf);
+    let m = if src.1 < dst.1 { src.1 } else { dst.1 };
+    assert!(so <= cap && dof <= cap, "pointer handed to the chunked copy leaves the allocation");
+    assert!(n <= m, "copy_at_least exceeds one of the ranges");
+    if m > 0 {
+        assert!(m <= cap - so && m <= cap - dof, "effective range leaves the allocation");
+        let ok = if head <= tail { so >= head && so + m <= tail } else { so >= head || so + m <= tail };
+        assert!(ok, "bytes the chunked copy may read are not all inside the initialised region");
+        let ok = if head <= tail { dof >= tail || dof + m <= head } else { dof >= tail && dof + m <= head };
+        assert!(ok, "bytes the chunked copy may write are not all inside the free region");
+    }
+    core::ptr::copy_nonoverlapping(src.0, dst.0, n);
+    // whatever the real routine may write into the rest of the effective destination range
+    let junk: [u8; 72] = nd::any();
+    core::ptr::copy_nonoverlapping(junk.as_ptr(), dst.0.add(n), m - n);
+    nd::set_ghost(4, nd::ghost(4) + 1);
+}
+
+fn step_efw_contract<const RES: usize, const CAP: usize>() {
+    nd::stubs(nd::S12_COPY_CONTRACT);
+    let (mut rb, init, head, tail, len) = mk::<RES, CAP>();
+    nd::set_ghost(0, rb.buf.as_ptr() as usize as u64);
+    nd::set_ghost(1, CAP as u64);
+    nd::set_ghost(2, head as u64);
+    nd::set_ghost(3, tail as u64);
+    nd::set_ghost(4, 0);
+    let start: usize = nd::any();
+    let n: usize = nd::any();
+    nd::assume(start <= len && n <= len - start);
+    nd::assume(n <= CAP - 1 - len);
+    unsafe { rb.extend_from_within_unchecked(start, n) };
+    inv::<CAP>(&rb);
+    assert!(rb.head == head && rb.tail == (tail + n) % CAP && rb.len() == len + n);
+    assert!(nd::ghost(4) >= 1, "the copy routine was never reached");
+    nd_cover!(head < tail && n > CAP - tail, "case 1 with wrapped destination");
+    nd_cover!(head > tail && head + start > CAP && n > 0, "case 2 source behind the wrap");
+    nd_cover!(head > tail && head + start <= CAP && n > CAP - head - start, "case 3 source across the wrap");
+    nd_cover!(nd::ghost(4) == 2, "two copy calls");
+    let i: usize = nd::any();
+    nd::assume(i < len + n);
+    let src_i = if i < len { i } else { start + (i - len) };
+    assert!(byte_at(&rb, i) == init[(head + src_i) % CAP], "queue content differs from the model for some contract-respecting copy");
+}
+harness! { fn rb_efw_contract_cap9() { step_efw_contract::<8, 9>(); } }
+harness! { fn rb_efw_contract_cap17() { step_efw_contract::<16, 17>(); } }
+harness! { fn rb_efw_contract_cap33() { step_efw_contract::<32, 33>(); } }
+harness! { fn rb_efw_contract_cap65() { step_efw_contract::<64, 65>(); } }
+
+// ---------------------------------------------------------------- extend(&[u8])
+fn step_extend<const RES: usize, const CAP: usize>() {
+    let (mut rb, init, head, tail, len) = mk::<RES, CAP>();
+    let data: [u8; CAP] = nd::any();
+    let n: usize = nd::any();
+    nd::assume(n <= CAP - 1 - len); // no growth: growth is decided separately (rb_reserve_grow_*)
+    rb.extend(&data[..n]);
+    inv::<CAP>(&rb);
+    assert!(rb.head == head && rb.tail == (tail + n) % CAP && rb.len() == len + n);
+    let i: usize = nd::any();
+    nd::assume(i < len + n);
+    let want = if i < len { init[(head + i) % CAP] } else { data[i - len] };
+    assert!(byte_at(&rb, i) == want, "queue content differs from the model after extend");
+    nd_cover!(n > 0 && tail + n > CAP, "append wraps");
+    nd_cover!(n == CAP - 1, "fills an empty ring completely");
+    nd_cover!(n == 0, "empty append");
+}
+harness! { fn rb_extend_cap9() { step_extend::<8, 9>(); } }
+harness! { fn rb_extend_cap17() { step_extend::<16, 17>(); } }
+harness! { fn rb_extend_cap33() { step_extend::<32, 33>(); } }
+
+// ---------------------------------------------------------------- extend_and_fill, drop_first_n, get
+fn step_fill_drop<const RES: usize, const CAP: usize>() {
+    let (mut rb, init, head, tail, len) = mk::<RES, CAP>();
+    let n: usize = nd::any();
+    nd::assume(n <= CAP - 1 - len);
+    let b: u8 = nd::any();
+    rb.extend_and_fill(b, n);
+    inv::<CAP>(&rb);
+    assert!(rb.len() == len + n && rb.head == head && rb.tail == (tail + n) % CAP);
+    let d: usize = nd::any();
+    nd::assume(d <= len + n); // precondition (debug_assert) of drop_first_n; its only caller is shown to respect it in db_drain_*
+    rb.drop_first_n(d);
+    inv::<CAP>(&rb);
+    assert!(rb.len() == len + n - d && rb.head == (head + d) % CAP);
+    nd_cover!(n > 0 && tail + n > CAP, "fill wraps");
+    nd_cover!(d > 0 && head + d >= CAP, "drop wraps");
+    nd_cover!(d == len + n && d > 0, "drop everything");
+    let j: usize = nd::any();
+    nd::assume(j >= len + n - d);
+    assert!(rb.get(j).is_none(), "get beyond the end must be None");
+    if len + n - d > 0 {
+        let i: usize = nd::any();
+        nd::assume(i < len + n - d);
+        let k = i + d;
+        let want = if k < len { init[(head + k) % CAP] } else { b };
+        assert!(rb.get(i) == Some(want), "queue content differs from the model after fill+drop");
+    }
+}
+harness! { fn rb_fill_drop_cap9() { step_fill_drop::<8, 9>(); } }
+harness! { fn rb_fill_drop_cap17() { step_fill_drop::<16, 17>(); } }
+harness! { fn rb_fill_drop_cap33() { step_fill_drop::<32, 33>(); } }
+
+// ---------------------------------------------------------------- as_slices / len / free / clear / push_back
+fn step_views<const RES: usize, const CAP: usize>() {
+    let (mut rb, init, head, tail, len) = mk::<RES, CAP>();
+    assert!(rb.len() == len && rb.free() == CAP - 1 - len);
+    {
+        let (s1, s2) = rb.as_slices();
+        assert!(s1.len() + s2.len() == len);
+        let i: usize = nd::any();
+        nd::assume(i < len);
+        let got = if i < s1.len() { s1[i] } else { s2[i - s1.len()] };
+        assert!(got == init[(head + i) % CAP], "as_slices does not present the queue in order");
+        nd_cover!(s2.len() > 0 && s1.len() > 0, "two segments");
+    }
+    let push: bool = nd::any();
+    if push {
+        nd::assume(len < CAP - 1);
+        let b: u8 = nd::any();
+        rb.push_back(b);
+        inv::<CAP>(&rb);
+        assert!(rb.len() == len + 1 && rb.get(len) == Some(b));
+        let i: usize = nd::any();
+        nd::assume(i < len);
+        assert!(rb.get(i) == Some(init[(head + i) % CAP]));
+        nd_cover!(tail == CAP - 1, "push wraps tail");
+    } else {
+        rb.clear();
+        assert!(rb.len() == 0 && rb.free() == CAP - 1 && rb.head == 0 && rb.tail == 0 && rb.cap == CAP);
+        assert!(rb.get(0).is_none());
+    }
+}
+harness! { fn rb_views_cap9() { step_views::<8, 9>(); } }
+harness! { fn rb_views_cap17() { step_views::<16, 17>(); } }
+
+// ---------------------------------------------------------------- reserve -> real reserve_amortized (grow, linearise, free)
+fn step_grow<const RES: usize, const CAP: usize, const NEWCAP: usize>(extra: usize) {
+    let (mut rb, init, head, tail, len) = mk::<RES, CAP>();
+    let free = CAP - 1 - len;
+    rb.reserve(free + extra);
+    assert!(rb.cap == NEWCAP, "unexpected capacity after growth");
+    assert!(rb.head == 0 && rb.tail == len && rb.len() == len);
+    assert!(rb.free() >= free + extra);
+    let i: usize = nd::any();
+    nd::assume(i < len);
+    assert!(byte_at(&rb, i) == init[(head + i) % CAP], "content changed by growth");
+    nd_cover!(tail < head, "wrapped content is linearised");
+    nd_cover!(len == CAP - 1, "full ring grows");
+    // Drop runs here: dealloc of the new block with the layout derived from cap (checked by CBMC's free() model)
+}
+harness! { fn rb_reserve_grow_9_to_17() { step_grow::<8, 9, 17>(1); } }
+harness! { fn rb_reserve_grow_9_to_33() { step_grow::<8, 9, 33>(9); } }
+harness! { fn rb_reserve_grow_17_to_33() { step_grow::<16, 17, 33>(1); } }
+
+// reserve that needs no growth leaves everything untouched
+harness! { fn rb_reserve_nogrow_cap9() {
+    let (mut rb, init, head, tail, len) = mk::<8, 9>();
+    let amount: usize = nd::any();
+    nd::assume(amount <= 8 - len);
+    let p = rb.buf;
+    rb.reserve(amount);
+    assert!(rb.cap == 9 && rb.head == head && rb.tail == tail && rb.buf == p);
+    nd_cover!(amount == 8 - len, "exactly the free space");
+} }
+
+// first allocation from the empty state, for every small amount
+harness! { fn rb_first_reserve_small() {
+    let amount: usize = nd::any();
+    nd::assume(amount >= 1 && amount <= 33);
+    let mut rb = RingBuffer::new();
+    assert!(rb.len() == 0 && rb.free() == 0);
+    rb.reserve(amount);
+    assert!(rb.cap == amount.next_power_of_two() + 1);
+    assert!(rb.free() >= amount && rb.len() == 0 && rb.head == 0 && rb.tail == 0);
+    nd_cover!(amount == 33, "largest");
+} }
+
+// ---------------------------------------------------------------- extend_from_reader
+struct ChunkReader<'a> { data: &'a [u8], pos: usize, fail_at: usize }
+impl<'a> Read for ChunkReader<'a> {
+    fn read(&mut self, buf: &mut [u8]) -> Result<usize, crate::io::Error> {
+        if self.pos == self.fail_at {
+            self.fail_at = usize::MAX;
+            return Err(crate::io::Error::from(crate::io::ErrorKind::Other));
+        }
+        let avail = self.data.len() - self.pos;
+        let want: usize = nd::any(); // arbitrary short read
+        nd::assume(want >= 1);
+        let mut n = if want < buf.len() { want } else { buf.len() };
+        if n > avail { n = avail; }
+        if self.fail_at != usize::MAX && self.pos < self.fail_at && self.pos + n > self.fail_at { n = self.fail_at - self.pos; }
+        buf[..n].copy_from_slice(&self.data[self.pos..self.pos + n]);
+        self.pos += n;
+        Ok(n)
+    }
+}
+
+fn step_from_reader<const RES: usize, const CAP: usize, const N: usize>() {
+    let (mut rb, init, head, tail, len) = mk::<RES, CAP>();
+    nd::assume(N <= CAP - 1 - len);
+    let data: [u8; N] = nd::any();
+    let avail: usize = nd::any(); // the reader may hit EOF early
+    nd::assume(avail <= N);
+    let fail_at: usize = nd::any(); // or fail with a hard error after fail_at bytes (usize::MAX: never)
+    nd::assume(fail_at <= N || fail_at == usize::MAX);
+    let mut r = ChunkReader { data: &data[..avail], pos: 0, fail_at };
+    let res = rb.extend_from_reader(&mut r, N);
+    inv::<CAP>(&rb);
+    assert!(rb.head == head);
+    nd_cover!(N == 0 || (res.is_ok() && tail + N > CAP), "reader fill wraps");
+    nd_cover!(N == 0 || (res.is_err() && avail < N), "early EOF");
+    nd_cover!(N == 0 || (res.is_err() && fail_at < N), "hard error");
+    match res {
+        Ok(()) => {
+            assert!(avail == N && (fail_at == usize::MAX || fail_at >= N), "Ok although the reader could not supply all bytes");
+            assert!(rb.tail == (tail + N) % CAP && rb.len() == len + N);
+            let i: usize = nd::any();
+            nd::assume(i < len + N);
+            let want = if i < len { init[(head + i) % CAP] } else { data[i - len] };
+            assert!(byte_at(&rb, i) == want, "queue content differs from the model after extend_from_reader");
+        }
+        Err(e) => {
+            core::mem::forget(e);
+            assert!(avail < N || fail_at < N, "error although the reader had all bytes");
+            // failed read: the queue is unchanged (tail not advanced)
+            assert!(rb.tail == tail && rb.len() == len);
+            let i: usize = nd::any();
+            nd::assume(i < len);
+            assert!(byte_at(&rb, i) == init[(head + i) % CAP], "live bytes changed by a failed read");
+        }
+    }
+}
+harness! { fn rb_from_reader_cap9_n3() { step_from_reader::<8, 9, 3>(); } }
+harness! { fn rb_from_reader_cap9_n0() { step_from_reader::<8, 9, 0>(); } }
+harness! { fn rb_from_reader_cap17_n5() { step_from_reader::<16, 17, 5>(); } }
+
+// ---------------------------------------------------------------- copy_bytes_overshooting contract on its own
+// src and dst are distinct 40-byte objects; the (ptr,len) pairs name arbitrary sub-ranges of them.  CBMC's pointer
+// checks decide "reads only inside src.0..+src.1 / writes only inside dst.0..+dst.1" is at least "inside the objects";
+// the canary comparison decides that nothing outside dst.0..+dst.1 changes.
+fn copy_contract<const M: usize>() {
+    let src: [u8; M] = nd::any();
+    let dst0: [u8; M] = nd::any();
+    let mut dst = dst0;
+    let so: usize = nd::any(); let sl: usize = nd::any();
+    let dof: usize = nd::any(); let dl: usize = nd::any();
+    nd::assume(so <= M && sl <= M - so && dof <= M && dl <= M - dof);
+    let n: usize = nd::any();
+    nd::assume(n <= sl && n <= dl);
+    unsafe { copy_bytes_overshooting((src.as_ptr().add(so), sl), (dst.as_mut_ptr().add(dof), dl), n); }
+    let i: usize = nd::any();
+    nd::assume(i < M);
+    let m = if sl < dl { sl } else { dl };
+    if i >= dof && i < dof + n { assert!(dst[i] == src[so + (i - dof)], "requested bytes not copied"); }
+    // only dst[0..min(src.1, dst.1)) may change; whatever lands in dst[n..m) must come from src[n..m) (no invented bytes)
+    if i < dof || i >= dof + m { assert!(dst[i] == dst0[i], "write outside the effective destination range"); }
+    if i >= dof + n && i < dof + m { assert!(dst[i] == dst0[i] || dst[i] == src[so + (i - dof)], "overshoot wrote a byte that is neither old nor from the source range"); }
+    nd_cover!(n > 16 && sl >= 32 && dl >= 32, "multi chunk path");
+    nd_cover!(n <= 16 && sl >= 16 && dl >= 16, "single chunk path");
+    nd_cover!(n > 0 && (sl < 16 || dl < 16), "memcpy fallback");
+    nd_cover!(so + m == M && n > 0 && m >= 16, "effective source range ends at the object end");
+    nd_cover!(dof + m == M && n > 0 && m >= 16, "effective destination range ends at the object end");
+}
+harness! { fn copy_overshooting_contract_m33() { copy_contract::<33>(); } }
+harness! { fn copy_overshooting_contract_m48() { copy_contract::<48>(); } }
